@@ -350,7 +350,10 @@ def a_world_files(world: dict, root: str = '') -> T.Tuple[T.Dict[str, T.Union[st
         files[f'pc/{DEP}.pc'] = f'Name: {DEP}\nDescription: system {DEP}\nVersion:{ver}\n'
     else:
         files['pc/.keep'] = ''
-    top = ["project('top', meson_version: '>=1.0')"]
+    # implicit_ver: the subproject's dependency has NO version: of its own and therefore carries the SUBPROJECT's
+    # project version; the main project then has a version of its own that no provider uses
+    top = ["project('top', version: '5.5', meson_version: '>=1.0')" if world.get('implicit_ver')
+           else "project('top', meson_version: '>=1.0')"]
     pre = world['pre']
     subcall = f"subproject('{SUB}')"
     if world.get('sub_dl_how') == 'default_options':
@@ -384,6 +387,10 @@ def a_world_files(world: dict, root: str = '') -> T.Tuple[T.Dict[str, T.Union[st
         else:
             v = SUB_VERSIONS[world['pver']]
             body = f"{var} = declare_dependency(version: '{v}')\n"
+        if world.get('implicit_ver'):
+            body = body.replace(f"declare_dependency(version: '{v}')", 'declare_dependency()')
+        if pre != 'override_sub':
+            pass
             if world.get('sub_overrides'):
                 body += f"meson.override_dependency('{DEP}', {var})\n"
         subfiles: T.Dict[str, bytes] = {}
@@ -395,7 +402,8 @@ def a_world_files(world: dict, root: str = '') -> T.Tuple[T.Dict[str, T.Union[st
             body += "error('c10: this subproject fails after registering its overrides')\n"
         elif world.get('sub_fails') == 'missingdep':
             body += "dependency('c10-no-such-dependency-anywhere')\n"
-        text = f"project('{SUB}', version: '9.9', meson_version: '>=1.0')\n" + body
+        subproj_version = v if world.get('implicit_ver') else '9.9'
+        text = f"project('{SUB}', version: '{subproj_version}', meson_version: '>=1.0')\n" + body
         for rel, data in subfiles.items():
             if not world.get('sub_download'):
                 files[f'src/subprojects/{SUB}/{rel}'] = data
@@ -426,7 +434,48 @@ def a_world_files(world: dict, root: str = '') -> T.Tuple[T.Dict[str, T.Union[st
         args.append(f'--force-fallback-for={val}' if long else f'-Dforce_fallback_for={val}')
     if world.get('pcpath') is not None:
         args.append(pcpath_arg(world['pcpath'], root))
+    if world.get('nested'):
+        files = nest_files(files, world['nested'])
     return files, args, {}
+
+
+NEST = 'A'
+
+
+def nest_files(files: T.Dict[str, T.Union[str, bytes]], spdir: str) -> T.Dict[str, T.Union[str, bytes]]:
+    """The whole world moves one level down: the lookups happen in subproject A of a new, empty main project; A keeps
+    its providers (wrap files, subproject trees) in ITS OWN subproject directory `spdir` ('subprojects' or another
+    name).  The policy is the same for a dependency() call wherever it is made."""
+    out: T.Dict[str, T.Union[str, bytes]] = {}
+    for rel, data in files.items():
+        if rel == 'src/meson.build':
+            assert isinstance(data, str)
+            first, rest = data.split('\n', 1)
+            first = first.replace("project('top'", f"project('{NEST}', subproject_dir: '{spdir}'")
+            out[f'src/subprojects/{NEST}/meson.build'] = first + '\n' + rest
+        elif rel.startswith('src/subprojects/'):
+            out[f'src/subprojects/{NEST}/{spdir}/' + rel[len('src/subprojects/'):]] = data
+        else:
+            out[rel] = data
+    out['src/meson.build'] = f"project('top', meson_version: '>=1.0')\nsubproject('{NEST}')\n"
+    return out
+
+
+def a_nested_worlds(rng: random.Random, n: int) -> T.List[dict]:
+    """Cells of the decision table looked up from INSIDE a subproject whose providers live in its own subproject
+    directory (default name or another one)."""
+    out = []
+    cells = a_full_table()
+    while len(out) < n:
+        cell = dict(rng.choice(cells))
+        if cell['fb'] in ('none', 'override') and rng.random() < 0.7:
+            continue
+        cell.update(nfm=rng.choice([0, 0, 1, 2]), sub_overrides=rng.random() < 0.5, eform=rng.choice(['pair', 'single']),
+                    optstyle=rng.choice(['D', 'long']))
+        w = a_cell_to_world(cell)
+        w['nested'] = rng.choice(['subprojects', 'deps', 'deps'])
+        out.append(w)
+    return out
 
 
 def wrap_form(world: dict) -> str:
